@@ -3,6 +3,7 @@ package main
 import (
 	"context"
 	"fmt"
+	"os"
 	"runtime"
 	"sort"
 	"strings"
@@ -78,6 +79,11 @@ func newBackendSuite(opts map[string]string) *backendSuite {
 	s.kv = &kvWrap{inner: s.inner, c: s.c}
 	s.coder = coder.NewNormalCoder()
 	s.wait = durOpt(opts, "wait", 3000*time.Millisecond)
+	if v := os.Getenv("KB_WAIT_MS"); v != "" {
+		if _, ok := opts["wait"]; !ok {
+			s.wait = time.Duration(atoi(v)) * time.Millisecond
+		}
+	}
 	if sp, ok := opts["splits"]; ok && sp != "-" && sp != "" {
 		for _, h := range strings.Split(sp, ",") {
 			s.c.splits = append(s.c.splits, unhx(h))
